@@ -9,6 +9,7 @@ V: Verify of honest tokens of types 1 and 5 and of altered ones: each bit of
    verdict = the independent FullEvaluate comparison over the concatenated
    bytes, honest accepted, listed alterations rejected."""
 import vlib
+from checks import verdicts_common as vc
 from checks import issuance_common as ic
 
 
@@ -18,12 +19,14 @@ def run(ctx):
     for t in (1, 5):
         ctx.model_check("MC_Issuance", ctx.pick("MC_Issuance_t%d.cfg" % t, "MC_Issuance_t%d_thorough.cfg" % t))
     n, cases, kinds = ic.run(ctx, "C10", ["verify"])
+    vn, vcases, vdepth = vc.run(ctx, ['t1verify', 't5verify'])   # Verdicts.tla: every history of presentations on one long-lived object
     return ctx.finish({
         "traces_validated_against_impl": n,
         "evaluations": len(cases),
         "distinct_nontrivial": ic.distinct(cases),
         "rule": "a case is one Verify call on one (possibly altered) token; distinct = distinct (type, alteration)",
         "calls_by_kind": kinds,
+        **vc.coverage(vn, vcases, vdepth),
         "samples": [ic.short(c) for c in vlib.sample(cases, 4)],
         "exhaustive": ctx.thorough,
         "exhaustive_part": "every bit of every token field" if ctx.thorough else "one seeded bit per byte of every field, every bit of the type field",
@@ -33,4 +36,6 @@ def run(ctx):
 
 
 def replay(ctx, path):
+    if vlib.json.load(open(path)).get("family") == "verdicts":
+        return vc.replay(ctx, path)
     return ctx.replay_case(path, "issuance", "Trace_Issuance", cfg="Trace_Issuance_C10.cfg")
